@@ -98,6 +98,34 @@ func C16(c *Ctx) {
 		return is
 	}
 	n1 := 0
+	// afterWrite: the instruction is dominated by the err == nil outcome of a write in its function, or its function
+	// is run only from such places (c16RunSites)
+	var afterWrite func(in ssa.Instruction, depth int) bool
+	afterWrite = func(in ssa.Instruction, depth int) bool {
+		f := in.Parent()
+		found := false
+		ssau.Instrs(f, func(w ssa.Instruction) {
+			if cl, ok := w.(*ssa.Call); ok && isWrite(cl) && w != in && flow.InstrDominates(w, in) && errChecked(f, cl, in.Block()) {
+				found = true
+			}
+		})
+		if found {
+			return true
+		}
+		if depth > 3 {
+			return false
+		}
+		sites, ok := c16RunSites(c, f, fns)
+		if !ok || len(sites) == 0 {
+			return false
+		}
+		for _, s := range sites {
+			if !afterWrite(s, depth+1) {
+				return false
+			}
+		}
+		return true
+	}
 	for _, f := range fns {
 		var wsCalls []*ssa.Call
 		ssau.Instrs(f, func(in ssa.Instruction) {
@@ -141,6 +169,11 @@ func C16(c *Ctx) {
 				if flow.InstrDominates(ws, in) && errChecked(f, ws, in.Block()) {
 					ok = true
 				}
+			}
+			if !ok {
+				// the update may sit in an unexported helper, a literal or a method value (`commit func()`) that runs
+				// only after the write: then every place from which it is run is judged instead
+				ok = afterWrite(in, 0)
 			}
 			c.R.Check(ok, "C16-R1", fmt.Sprintf("%s: %s #%d", fname(f), mut, n1), c.pos(in), "dominated by WriteState(...) == nil", "memory is updated without (or before) a successful WriteState in this function: a failed write leaves memory ahead of the store")
 		})
@@ -353,10 +386,29 @@ func C16(c *Ctx) {
 			c.R.Break("C16-R3: expected Put and Delete inside the transaction, found %d", nput)
 		}
 	}
-	// every record of the batch reaches the value map: in the loop over mss no path back to the header skips the map update
-	loops := flow.Loops(writeState)
-	okAll := false
-	for _, l := range loops {
+	// every record of the batch reaches the value map: in the loop over mss no path back to the header skips the map update.
+	// The loop may sit in WriteState or in a helper that is handed the batch (encodeStates(mss)); a counted loop
+	// must visit every index.
+	wsScope := pkgClosure(writeState)
+	var batchParam ssa.Value
+	for _, p := range writeState.Params {
+		if sl, isSl := p.Type().Underlying().(*types.Slice); isSl && ssau.TypeIs(sl.Elem(), prog.Abs("cmd/mcrew"), "MachineState") {
+			batchParam = p
+		}
+	}
+	type batchLoop struct {
+		f *ssa.Function
+		l *flow.Loop
+	}
+	var loops []batchLoop
+	for _, f := range wsScope {
+		for _, l := range flow.Loops(f) {
+			loops = append(loops, batchLoop{f, l})
+		}
+	}
+	found, skips := false, false
+	for _, bl := range loops {
+		l := bl.l
 		op := loopOperand(l)
 		if op == nil {
 			continue
@@ -364,7 +416,23 @@ func C16(c *Ctx) {
 		if sl, ok := op.Type().Underlying().(*types.Slice); !ok || !ssau.TypeIs(sl.Elem(), prog.Abs("cmd/mcrew"), "MachineState") {
 			continue
 		}
-		okAll = true
+		if bl.f != writeState {
+			// in a helper: the slice it iterates over is the batch WriteState was given
+			isBatch := false
+			for _, d := range deepDefs(op, wsScope) {
+				if batchParam != nil && d == batchParam {
+					isBatch = true
+				}
+			}
+			if !isBatch {
+				continue
+			}
+		}
+		found = true
+		if !visitsEveryIndex(l, op) {
+			skips = true // a counted loop that does not go over every index skips records just the same
+			continue
+		}
 		var updBlocks = map[*ssa.BasicBlock]bool{}
 		for b := range l.Blocks {
 			for _, in := range b.Instrs {
@@ -385,7 +453,8 @@ func C16(c *Ctx) {
 						}
 					} else {
 						// a field of a value built here (`w := &stateWrites{vals: make(...)}`)
-						ls := resolveThroughLocals(mu.Map, []*ssa.Function{writeState})
+						// ... or, in a helper, a map the helper is handed
+						ls := resolveThroughLocals(mu.Map, wsScope)
 						all := len(ls) > 0
 						for _, l := range ls {
 							if _, isMake := l.(*ssa.MakeMap); !isMake {
@@ -418,13 +487,13 @@ func C16(c *Ctx) {
 			seen[b] = true
 			for _, s := range b.Succs {
 				if s == l.Header {
-					okAll = false
+					skips = true
 				}
 				stack = append(stack, s)
 			}
 		}
 	}
-	c.R.Check(okAll, "C16-R3", "WriteState: every given record is written", c.P.Pos(writeState.Pos()), "each iteration over the batch records a value (or returns an error)", "an iteration over the batch can skip its record: memory then advances for a machine whose record was not written")
+	c.R.Check(found && !skips, "C16-R3", "WriteState: every given record is written", c.P.Pos(writeState.Pos()), "each iteration over the batch records a value (or returns an error)", "an iteration over the batch can skip its record: memory then advances for a machine whose record was not written")
 	// no state of its own
 	var fieldWrites []string
 	for _, f := range ssau.WithAnon(writeState) {
@@ -456,31 +525,56 @@ func c16Added(c *Ctx) {
 	if add == nil || writeState == nil {
 		return
 	}
-	scope := []*ssa.Function{add}
-	for _, f := range pkgClosure(add) {
-		if f != add && prog.PkgOf(f) == "cmd/mcrew" && f != writeState {
-			scope = append(scope, f)
-		}
-	}
-	// the installed machine: the value stored into crew.Machines
-	var installed ssa.Value
-	ssau.Instrs(add, func(in ssa.Instruction) {
-		if mu, ok := in.(*ssa.MapUpdate); ok {
-			if _, is := ssau.LoadOfField(mu.Map, prog.Abs("crew"), "Crew", "Machines"); is {
-				installed = mu.Value
-			}
-		}
-	})
-	// the record: a MachineState whose address reaches WriteState
-	var rec *ssa.Alloc
+	// AddMachine with its helpers; what the store does with the record inside WriteState is not AddMachine's business
+	// (WriteState builds records of its own)
+	scope := closureAvoiding(add, writeState)
+	// the installed machine: the value stored into crew.Machines (by AddMachine or by a helper / method value it uses)
+	var installed []ssa.Value
 	for _, f := range scope {
 		ssau.Instrs(f, func(in ssa.Instruction) {
-			if al, ok := in.(*ssa.Alloc); ok && ssau.TypeIs(al.Type(), prog.Abs("cmd/mcrew"), "MachineState") {
-				rec = al
+			if mu, ok := in.(*ssa.MapUpdate); ok {
+				if _, is := ssau.LoadOfField(mu.Map, prog.Abs("crew"), "Crew", "Machines"); is {
+					installed = append(installed, mu.Value)
+				}
 			}
 		})
 	}
-	if installed == nil || rec == nil {
+	// the record: a MachineState whose address reaches WriteState
+	var rec *ssa.Alloc
+	var cands []*ssa.Alloc
+	for _, f := range scope {
+		ssau.Instrs(f, func(in ssa.Instruction) {
+			if al, ok := in.(*ssa.Alloc); ok && ssau.TypeIs(al.Type(), prog.Abs("cmd/mcrew"), "MachineState") {
+				cands = append(cands, al)
+			}
+		})
+	}
+	written := map[ssa.Value]bool{}
+	for _, f := range scope {
+		ssau.Instrs(f, func(in ssa.Instruction) {
+			cl, ok := in.(*ssa.Call)
+			if !ok || !(cl.Common().StaticCallee() == writeState || isWriteIface(c, cl, writeState)) {
+				return
+			}
+			for _, a := range cl.Common().Args {
+				if sl, isSl := a.Type().Underlying().(*types.Slice); !isSl || !ssau.TypeIs(sl.Elem(), prog.Abs("cmd/mcrew"), "MachineState") {
+					continue
+				}
+				for _, e := range sliceElems(a, scope) {
+					written[e] = true
+				}
+			}
+		})
+	}
+	for _, al := range cands {
+		if written[al] {
+			rec = al
+		}
+	}
+	if rec == nil && len(cands) > 0 {
+		rec = cands[len(cands)-1]
+	}
+	if len(installed) == 0 || rec == nil {
 		c.R.Break("C16-R4: AddMachine's installed machine or written record not found")
 		return
 	}
@@ -506,9 +600,11 @@ func c16Added(c *Ctx) {
 	fieldOfInstalled := func(name string) []ssa.Value {
 		var vals []ssa.Value
 		var machines []*ssa.Alloc
-		for _, d := range deepDefs(installed, scope) {
-			if a, ok := d.(*ssa.Alloc); ok {
-				machines = append(machines, a)
+		for _, iv := range installed {
+			for _, d := range resolveThroughLocals(iv, scope) {
+				if a, ok := d.(*ssa.Alloc); ok {
+					machines = append(machines, a)
+				}
 			}
 		}
 		var states []*ssa.Alloc
@@ -846,48 +942,400 @@ func isWriteIface(c *Ctx, cl *ssa.Call, writeState *ssa.Function) bool {
 }
 
 // sharedBytes: if v is (a sub-slice of) the contents of a buffer or array that is created outside loop l, a description
-// of that storage; "" otherwise.
+// of that storage; "" otherwise.  A value that a helper of the package returns is judged inside the helper: what the
+// helper makes itself is made once per call, and its parameters are the arguments of the call.
 func sharedBytes(v ssa.Value, l *flow.Loop, depth int) string {
-	if v == nil || depth > 8 {
+	return sharedBytesVia(v, l, nil, depth)
+}
+
+// sharedBytesVia: v lives in the function entered through the chain of calls `via` (the first one is in l's function).
+func sharedBytesVia(v ssa.Value, l *flow.Loop, via []*ssa.Call, depth int) string {
+	if v == nil || depth > 12 {
+		return ""
+	}
+	// a parameter of a helper is the argument of the call
+	for len(via) > 0 {
+		p, isP := v.(*ssa.Parameter)
+		if !isP {
+			break
+		}
+		last := via[len(via)-1]
+		idx := -1
+		for i, q := range p.Parent().Params {
+			if q == p {
+				idx = i
+			}
+		}
+		if idx < 0 || idx >= len(last.Common().Args) {
+			return ""
+		}
+		v, via = last.Common().Args[idx], via[:len(via)-1]
+	}
+	// made inside the iteration: in the loop itself, or in a helper that is called in the loop
+	inLoop := func(b *ssa.BasicBlock) bool {
+		if len(via) > 0 {
+			return l.Blocks[via[0].Block()]
+		}
+		return l.Blocks[b]
+	}
+	helper := func(cl *ssa.Call) *ssa.Function {
+		sc := cl.Common().StaticCallee()
+		if sc == nil || sc.Blocks == nil || len(via) > 3 || prog.PkgOf(sc) != prog.PkgOf(cl.Parent()) {
+			return nil
+		}
+		for _, c2 := range via {
+			if c2.Common().StaticCallee() == sc {
+				return nil
+			}
+		}
+		return sc
+	}
+	results := func(cl *ssa.Call, sc *ssa.Function, idx int) string {
+		for _, b := range sc.Blocks {
+			if ret, ok := b.Instrs[len(b.Instrs)-1].(*ssa.Return); ok && idx < len(ret.Results) {
+				if w := sharedBytesVia(ret.Results[idx], l, append(append([]*ssa.Call{}, via...), cl), depth+1); w != "" {
+					return w
+				}
+			}
+		}
 		return ""
 	}
 	switch x := v.(type) {
 	case *ssa.Phi:
 		for _, e := range x.Edges {
-			if w := sharedBytes(e, l, depth+1); w != "" {
+			if w := sharedBytesVia(e, l, via, depth+1); w != "" {
 				return w
 			}
 		}
 	case *ssa.Slice:
-		if al, ok := x.X.(*ssa.Alloc); ok && !l.Blocks[al.Block()] {
+		if al, ok := x.X.(*ssa.Alloc); ok && !inLoop(al.Block()) {
 			return "an array made before the loop (" + al.Comment + ")"
 		}
-		return sharedBytes(x.X, l, depth+1)
+		return sharedBytesVia(x.X, l, via, depth+1)
 	case *ssa.UnOp:
 		if al, ok := x.X.(*ssa.Alloc); ok {
 			for _, sv := range storedInto(al) {
-				if w := sharedBytes(sv, l, depth+1); w != "" {
+				if w := sharedBytesVia(sv, l, via, depth+1); w != "" {
 					return w
 				}
 			}
 		}
 	case *ssa.Extract:
-		return sharedBytes(x.Tuple, l, depth+1)
+		if cl, ok := x.Tuple.(*ssa.Call); ok {
+			if sc := helper(cl); sc != nil {
+				return results(cl, sc, x.Index)
+			}
+		}
+		return sharedBytesVia(x.Tuple, l, via, depth+1)
 	case *ssa.Call:
+		if sc := helper(x); sc != nil && sc.Signature.Results().Len() == 1 {
+			return results(x, sc, 0)
+		}
 		n := ssau.CalleeName(x)
 		switch {
 		case n == "(*bytes.Buffer).Bytes" || n == "(*bytes.Buffer).Next" || n == "(*bufio.Scanner).Bytes":
-			recv := x.Common().Args[0]
-			if al, ok := recv.(*ssa.Alloc); ok && l.Blocks[al.Block()] {
+			recv, rvia := x.Common().Args[0], via
+			for len(rvia) > 0 {
+				p, isP := recv.(*ssa.Parameter)
+				if !isP {
+					break
+				}
+				last := rvia[len(rvia)-1]
+				idx := -1
+				for i, q := range p.Parent().Params {
+					if q == p {
+						idx = i
+					}
+				}
+				if idx < 0 || idx >= len(last.Common().Args) {
+					break
+				}
+				recv, rvia = last.Common().Args[idx], rvia[:len(rvia)-1]
+			}
+			fresh := func(b *ssa.BasicBlock) bool {
+				if len(rvia) > 0 {
+					return l.Blocks[rvia[0].Block()]
+				}
+				return l.Blocks[b]
+			}
+			if al, ok := recv.(*ssa.Alloc); ok && fresh(al.Block()) {
 				return ""
 			}
-			if cl, ok := recv.(*ssa.Call); ok && l.Blocks[cl.Block()] {
+			if cl, ok := recv.(*ssa.Call); ok && fresh(cl.Block()) {
 				return ""
 			}
 			return "a buffer that is kept across iterations (" + n + ")"
 		case strings.HasPrefix(n, "bytes.Trim") || n == "bytes.TrimSpace":
-			return sharedBytes(x.Common().Args[0], l, depth+1)
+			return sharedBytesVia(x.Common().Args[0], l, via, depth+1)
 		}
 	}
 	return ""
+}
+
+// visitsEveryIndex: loop l goes over every element of the slice op — a range loop, or a counted loop whose index
+// starts at the first element, advances by one and stops only at len(op).
+func visitsEveryIndex(l *flow.Loop, op ssa.Value) bool {
+	for _, in := range l.Header.Instrs {
+		if _, ok := in.(*ssa.Next); ok {
+			return true
+		}
+	}
+	iff, isIf := l.Header.Instrs[len(l.Header.Instrs)-1].(*ssa.If)
+	if !isIf || !l.Blocks[l.Header.Succs[0]] || l.Blocks[l.Header.Succs[1]] {
+		return false
+	}
+	cond, isB := iff.Cond.(*ssa.BinOp)
+	if !isB || cond.Op != token.LSS {
+		return false
+	}
+	isLen := false
+	if cl, ok := cond.Y.(*ssa.Call); ok {
+		if bi, isBI := cl.Common().Value.(*ssa.Builtin); isBI && bi.Name() == "len" && cl.Common().Args[0] == op {
+			isLen = true
+		}
+	}
+	if !isLen {
+		return false
+	}
+	plusOne := func(v ssa.Value, phi *ssa.Phi) bool {
+		bo, ok := v.(*ssa.BinOp)
+		if !ok || bo.Op != token.ADD || bo.X != ssa.Value(phi) {
+			return false
+		}
+		k, isK := ssau.ConstInt(bo.Y)
+		return isK && k == 1
+	}
+	for _, in := range l.Header.Instrs {
+		phi, ok := in.(*ssa.Phi)
+		if !ok {
+			continue
+		}
+		var init ssa.Value
+		step := true
+		for i, e := range phi.Edges {
+			if l.Blocks[l.Header.Preds[i]] {
+				if !plusOne(e, phi) {
+					step = false
+				}
+			} else {
+				init = e
+			}
+		}
+		if !step || init == nil {
+			continue
+		}
+		k, isK := ssau.ConstInt(init)
+		if !isK {
+			continue
+		}
+		// the index at which the element is read, and which is compared with the length
+		var isIdx func(v ssa.Value) bool
+		switch k {
+		case -1: // `for _, x := range op`: the element is op[i+1]
+			isIdx = func(v ssa.Value) bool { return plusOne(v, phi) }
+		case 0: // `for i := 0; i < len(op); i++`: the element is op[i]
+			isIdx = func(v ssa.Value) bool { return v == ssa.Value(phi) }
+		default:
+			continue
+		}
+		if !isIdx(cond.X) {
+			continue
+		}
+		for b := range l.Blocks {
+			for _, in2 := range b.Instrs {
+				if ia, ok := in2.(*ssa.IndexAddr); ok && ia.X == op && isIdx(ia.Index) {
+					return true
+				}
+			}
+		}
+	}
+	return false
+}
+
+// closureAvoiding: pkgClosure(fn) without descending into stop (stop itself and what only it reaches are left out).
+func closureAvoiding(fn, stop *ssa.Function) []*ssa.Function {
+	pk := prog.PkgOf(fn)
+	seen := map[*ssa.Function]bool{stop: true}
+	var out []*ssa.Function
+	var visit func(f *ssa.Function)
+	visit = func(f *ssa.Function) {
+		if f == nil || f.Blocks == nil || seen[f] || prog.PkgOf(f) != pk {
+			return
+		}
+		seen[f] = true
+		out = append(out, f)
+		for _, an := range f.AnonFuncs {
+			visit(an)
+		}
+		ssau.Instrs(f, func(in ssa.Instruction) {
+			if ci, ok := in.(ssa.CallInstruction); ok {
+				if sc := ci.Common().StaticCallee(); sc != nil {
+					visit(sc)
+				}
+			}
+			if mc, ok := in.(*ssa.MakeClosure); ok {
+				visit(mc.Fn.(*ssa.Function))
+			}
+		})
+	}
+	visit(fn)
+	return out
+}
+
+// sliceElems: the leaf definitions of the elements of a slice that is built in scope from a literal
+// (`[]*T{a, b}`: an array whose cells are stored once each), possibly extended by append.
+func sliceElems(v ssa.Value, scope []*ssa.Function) []ssa.Value {
+	var out []ssa.Value
+	seen := map[ssa.Value]bool{}
+	var rec func(v ssa.Value, depth int)
+	rec = func(v ssa.Value, depth int) {
+		if v == nil || seen[v] || depth > 6 {
+			return
+		}
+		seen[v] = true
+		for _, d := range deepDefs(v, scope) {
+			switch x := d.(type) {
+			case *ssa.Slice:
+				rec(x.X, depth+1)
+			case *ssa.Alloc:
+				for _, r := range ssau.Referrers(x) {
+					ia, ok := r.(*ssa.IndexAddr)
+					if !ok {
+						continue
+					}
+					for _, r2 := range ssau.Referrers(ia) {
+						if st, isSt := r2.(*ssa.Store); isSt && st.Addr == ssa.Value(ia) {
+							out = append(out, deepDefs(st.Val, scope)...)
+						}
+					}
+				}
+			case *ssa.Call:
+				if bi, ok := x.Common().Value.(*ssa.Builtin); ok && bi.Name() == "append" {
+					for _, a := range x.Common().Args {
+						rec(a, depth+1)
+					}
+				}
+			}
+		}
+	}
+	rec(v, 0)
+	return out
+}
+
+// c16RunSites: the instructions from which f is run, if they are all known: the static calls of an unexported
+// function; for a function literal or a method used as a method value (x.m), the calls of the parameter of the
+// in-package function it is handed to (or the call of the value itself).  ok is false when f can be run from
+// somewhere that is not seen: an exported function, a function value that is stored or handed on, go and defer.
+func c16RunSites(c *Ctx, f *ssa.Function, fns []*ssa.Function) (sites []ssa.Instruction, ok bool) {
+	if f.Parent() == nil && (f.Object() == nil || f.Object().Exported()) {
+		return nil, false
+	}
+	ok = true
+	// the values that stand for f: f itself, closures of f, closures of its bound-method wrapper
+	isF := func(v ssa.Value) bool {
+		switch x := v.(type) {
+		case *ssa.Function:
+			return x == f
+		case *ssa.MakeClosure:
+			g := x.Fn.(*ssa.Function)
+			if g == f {
+				return true
+			}
+			if g.Synthetic != "" && g.Name() == f.Name()+"$bound" {
+				is := false
+				ssau.Instrs(g, func(in ssa.Instruction) {
+					if ci, isC := in.(ssa.CallInstruction); isC && ci.Common().StaticCallee() == f {
+						is = true
+					}
+				})
+				return is
+			}
+		}
+		return false
+	}
+	var all []*ssa.Function
+	for _, g := range fns {
+		all = append(all, ssau.WithAnon(g)...)
+	}
+	for _, g := range all {
+		ssau.Instrs(g, func(in ssa.Instruction) {
+			if _, isMC := in.(*ssa.MakeClosure); isMC {
+				return // judged where the closure is used
+			}
+			if ci, isCI := in.(ssa.CallInstruction); isCI && ci.Common().IsInvoke() && f.Signature.Recv() != nil && ci.Common().Method.Name() == f.Name() {
+				// a call through an interface that the call graph resolves to f
+				for _, cal := range c.P.Callees(ci) {
+					if cal != f {
+						continue
+					}
+					if cl, isCall := in.(*ssa.Call); isCall {
+						sites = append(sites, cl)
+					} else {
+						ok = false
+					}
+				}
+			}
+			used := false
+			for _, op := range in.Operands(nil) {
+				if *op != nil && isF(*op) {
+					used = true
+				}
+			}
+			if !used {
+				return
+			}
+			cl, isCall := in.(*ssa.Call)
+			if !isCall {
+				ok = false // go, defer, stored, returned, sent ...
+				return
+			}
+			if isF(cl.Common().Value) {
+				sites = append(sites, cl)
+			}
+			for i, a := range cl.Common().Args {
+				if !isF(a) {
+					continue
+				}
+				h := cl.Common().StaticCallee()
+				if h == nil || h.Blocks == nil || prog.PkgOf(h) != prog.PkgOf(f) || i >= len(h.Params) {
+					ok = false
+					continue
+				}
+				for _, r := range ssau.Referrers(h.Params[i]) {
+					switch u := r.(type) {
+					case *ssa.DebugRef:
+					case *ssa.Call:
+						if u.Common().Value != ssa.Value(h.Params[i]) {
+							ok = false
+						}
+						for _, a2 := range u.Common().Args {
+							if a2 == ssa.Value(h.Params[i]) {
+								ok = false
+							}
+						}
+						sites = append(sites, u)
+					default:
+						ok = false
+					}
+				}
+			}
+		})
+	}
+	// a closure that is made but whose uses are not calls or arguments (bound to a variable, stored in a field)
+	for _, g := range all {
+		ssau.Instrs(g, func(in ssa.Instruction) {
+			mc, isMC := in.(*ssa.MakeClosure)
+			if !isMC || !isF(mc) {
+				return
+			}
+			for _, r := range ssau.Referrers(mc) {
+				switch r.(type) {
+				case *ssa.Call, *ssa.DebugRef:
+				default:
+					ok = false
+				}
+			}
+		})
+	}
+	return sites, ok
 }
